@@ -87,12 +87,16 @@ var variations = []variation{
 var inprocModes = []string{"plain", "restart-all", "sim", "plain", "restart", "plain", "sim-restart", "plain"}
 
 func runChild(v variation, idx int, histPath, workDir string) ([]string, string, error) {
+	return runChildBin(os.Args[0], v, idx, histPath, workDir)
+}
+
+func runChildBin(bin string, v variation, idx int, histPath, workDir string) ([]string, string, error) {
 	dir := filepath.Join(workDir, fmt.Sprintf("child%d-%s", idx, v.name))
 	if err := os.MkdirAll(filepath.Join(dir, "home"), 0o755); err != nil {
 		return nil, "", err
 	}
 	obs := filepath.Join(dir, "obs.txt")
-	cmd := exec.Command(os.Args[0], "-test.run", "^TestC17Child$", "-test.timeout", "600s")
+	cmd := exec.Command(bin, "-test.run", "^TestC17Child$", "-test.timeout", "600s")
 	cmd.Dir = dir
 	env := []string{}
 	for _, e := range os.Environ() { // inherit everything except what the variation sets
@@ -232,6 +236,22 @@ func TestC17(t *testing.T) {
 		t.Fatal(err)
 	}
 
+	// shifted-wall-clock child binary (background build; quick tier: used only if it is ready in time)
+	var fake *fakeClockBuild
+	if os.Getenv("VERIF_C17_FAKECLOCK") != "0" {
+		wait := 100 * time.Second
+		if hx.Tier() == "thorough" {
+			wait = 20 * time.Minute
+		}
+		fake = startFakeClockBuild(workDir, wait)
+	}
+	type pendingFake struct {
+		g        *gen
+		histPath string
+		ref      []string
+	}
+	var fakeQueue []pendingFake
+
 	nHist := hx.N(3, 20)
 	nChild := 3
 	if hx.Tier() == "thorough" {
@@ -326,6 +346,32 @@ func TestC17(t *testing.T) {
 		}
 		// one summary op per history so the op stream records what was compared (the model answers `ok`)
 		out.Count(fmt.Sprintf("children:%d", nChild))
+		if fake != nil && (hi < 3 || hi%5 == 0) {
+			fakeQueue = append(fakeQueue, pendingFake{g, histPath, ref})
+		}
+	}
+	// shifted-clock replicas of the first histories, once the overlay build is there
+	if fake != nil {
+		<-fake.done
+		out.Stats.Extra["fakeclock_build_s"] = int(fake.took.Seconds())
+		if fake.err != nil || fake.bin == "" {
+			out.Count("fakeclock:unavailable")
+			out.Stats.Extra["fakeclock_unavailable"] = fmt.Sprint(fake.err)
+		} else {
+			for qi, q := range fakeQueue {
+				fc := fakeClockOffsets[qi%len(fakeClockOffsets)]
+				v := variation{name: fc.name, env: []string{"GOMAXPROCS=4", "TZ=UTC", fmt.Sprintf("VERIF_FAKE_CLOCK_OFFSET=%d", fc.sec)}, mode: "plain"}
+				lines, tail, err := runChildBin(fake.bin, v, 100+qi, q.histPath, workDir)
+				name := "process-" + v.name
+				if err != nil {
+					out.ViolateWith(fmt.Sprintf("child process %s failed to replay the history: %v", name, err), append(describeHistory(q.g.hist, q.histPath), tail))
+					continue
+				}
+				executions++
+				out.Count("replica:process-fakeclock")
+				compare(out, q.g.hist, q.g.kinds, q.histPath, "parent-generator", q.ref, name, lines)
+			}
+		}
 	}
 	out.Stats.Extra["executions_compared"] = executions
 	out.Stats.Extra["children_per_history"] = nChild
